@@ -256,6 +256,21 @@ def clamp_table(stmts, var_decl, floating, storage_ct=None):
                         return float(x) if name in ("atof", "strtod") else x
                     if name in ("atoi", "atof", "atol") and args and args[0] == 0:
                         return -999983      # converter applied to an absent key (NULL): shows up as a mismatch
+                    if name in ("min", "max", "lowest") and not args:
+                        # std::numeric_limits<T>::min() / max() / lowest(): T is the call's own type
+                        tq = A.qtype(n) or ""
+                        ct_ = FD.ctype(tq)
+                        if ct_[0] == "int":
+                            bits, sg = ct_[1], ct_[2]
+                            lo_, hi_ = (-(1 << (bits - 1)), (1 << (bits - 1)) - 1) if sg else (0, (1 << bits) - 1)
+                            return hi_ if name == "max" else lo_
+                        if ct_[0] == "float":
+                            dbl = "double" in tq
+                            big = 1.7976931348623157e308 if dbl else 3.4028234663852886e38
+                            tiny = 2.2250738585072014e-308 if dbl else 1.1754943508222875e-38
+                            return {"max": big, "lowest": -big, "min": tiny}[name]     # min() of a floating type is the smallest POSITIVE value
+                    if name in ("min", "max") and len(args) == 2 and all(isinstance(a_, (int, float)) and not isinstance(a_, bool) for a_ in args):
+                        return min(args) if name == "min" else max(args)
                     raise FD.Unknown("call to %s in clamp" % name, n)
                 # the incoming value arrives in the variable converted to the variable's own type
                 ev = FD.Eval(env={var_decl["id"]: FD.wrap(v, vct) if vct[0] == "int" else v}, call=call, node_hook=hook)
